@@ -15,8 +15,14 @@ struct Chan {                 // one direction of a byte stream
 	bool rclosed = false;       // reader end closed (EPIPE for writer)
 	uint64_t written = 0, read = 0;
 };
+struct DChan {                // one direction of a datagram socket pair
+	std::deque<std::vector<uint8_t>> wire;   // sent, in flight (the plan delivers, drops, duplicates, reorders)
+	std::deque<std::vector<uint8_t>> avail;  // delivered, receivable
+	uint64_t sent = 0, received = 0, truncated = 0;
+};
 struct Fd {
 	bool open = false;
+	bool dgram = false;         // rchan/wchan index datagram channels
 	int rchan = -1, wchan = -1; // channel indices
 	int flags = 0;              // O_* for fcntl(F_GETFL)
 	int rfault = 0; int64_t rfa = 0; // one-shot fault for the next readv
@@ -25,6 +31,7 @@ struct Fd {
 };
 struct State {
 	std::vector<Chan> chans;
+	std::vector<DChan> dchans;
 	std::vector<Fd> fds;        // fd number = 1000 + index
 	int64_t now_ms = 0;         // simulated clock, advanced by poll timeouts only
 	uint64_t polls = 0, poll_block_forever = 0;
@@ -39,4 +46,11 @@ Fd *get(int fd);
 Chan *chan(int idx);
 // deliver up to n in-flight bytes of channel to its reader; returns number delivered
 size_t deliver(int chan, size_t n);
+// datagram sockets
+int new_dchan();
+int new_dgram_fd(int rchan, int wchan);
+DChan *dchan(int idx);
+bool ddeliver(int chan, size_t idx);   // move datagram idx of the in-flight list to the receiver
+bool ddrop(int chan, size_t idx);      // lose it
+bool ddup(int chan, size_t idx);       // duplicate it in flight
 }
